@@ -1,5 +1,6 @@
 import Qats.Model.Registry
 import Mathlib.Tactic
+import Qats.Lemmas.RegistryCopy
 /-!
 Main lemmas behind the C08 property theorems (statements fixed by `Qats/Props/C08.lean`).
 -/
@@ -16,24 +17,50 @@ def WellFormed : Op → Prop
   | .load _ file names _ _ => (names.map fun n => pathJoin file n).Nodup
   | _ => True
 
+theorem coherent_iff_coh (d : Db) : Coherent d ↔ Coh d := Iff.rfl
+
 theorem coherent_init' : Coherent ({} : Db) := by
-  sorry
+  exact coh_empty
 
 /-- Every operation, succeeding or failing, keeps both databases coherent. -/
 theorem coherent_step' (s : State) (op : Op) (hw : WellFormed op) (ha : Coherent s.a) (hb : Coherent s.b) :
     Coherent (step s op).1.a ∧ Coherent (step s op).1.b := by
-  sorry
+  cases op with
+  | load w file names indexed read => exact coh_step_load s w file names indexed read hw ha hb
+  | add w name => exact coh_step_add s w name ha hb
+  | rename w name newname => exact coh_step_rename s w name newname ha hb
+  | clear w pattern => exact coh_step_clear s w pattern ha hb
+  | update names deep => exact coh_step_update s names deep ha hb
+  | copy names deep => exact coh_step_copy s names deep ha
+  | getm w names store => exact coh_step_getm s w names store ha hb
+  | getInd w ind store => exact coh_step_getInd s w ind store ha hb
+
+theorem run_cons_fst (s : State) (op : Op) (ops : List Op) :
+    (run s (op :: ops)).1 = (run (step s op).1 ops).1 := rfl
+
+theorem coherent_run_from (ops : List Op) (s : State) (hw : ∀ op ∈ ops, WellFormed op) (ha : Coherent s.a)
+    (hb : Coherent s.b) : Coherent (run s ops).1.a ∧ Coherent (run s ops).1.b := by
+  induction ops generalizing s with
+  | nil => exact ⟨ha, hb⟩
+  | cons op ops ih =>
+    rw [run_cons_fst]
+    have h1 := coherent_step' s op (hw op List.mem_cons_self) ha hb
+    exact ih _ (fun o ho => hw o (List.mem_cons_of_mem _ ho)) h1.1 h1.2
 
 /-- … hence after any history. -/
 theorem coherent_run' (ops : List Op) (hw : ∀ op ∈ ops, WellFormed op) :
     Coherent (run {} ops).1.a ∧ Coherent (run {} ops).1.b := by
-  sorry
+  exact coherent_run_from ops {} hw coherent_init' coherent_init'
 
 /-- In a coherent database the size is the number of keys and every key has an entry in each register. -/
 theorem coherent_size' (d : Db) (h : Coherent d) :
     d.register.length = d.keys.length ∧
       ∀ k ∈ d.keys, (lookup d.register k).isSome ∧ (lookup d.parents k).isSome ∧ (lookup d.indices k).isSome := by
-  sorry
+  obtain ⟨_, h2, h3, h4⟩ := h
+  refine ⟨?_, fun k hk => ?_⟩
+  · rw [← h2.length_eq, List.length_map]
+  · simp only [lookup_isSome_iff]
+    exact ⟨h2.mem_iff.mpr hk, h3.mem_iff.mpr hk, h4.mem_iff.mpr hk⟩
 
 /-- A rejected operation leaves the database it was applied to exactly as it was; the only thing a rejected operation
 may leave behind is cached data in the *source* database of `update` (which was read with `store=True`). -/
@@ -41,24 +68,88 @@ theorem rejected_unchanged' (s : State) (op : Op) (e : Err) (h : (step s op).2 =
     (step s op).1.a = s.a ∧
       (step s op).1.b.keys = s.b.keys ∧ (step s op).1.b.parents = s.b.parents ∧ (step s op).1.b.indices = s.b.indices ∧
       ((∀ names deep, op ≠ .update names deep) → (step s op).1 = s) := by
-  sorry
+  revert h
+  cases op with
+  | load w file names indexed read =>
+    rw [step_load]
+    split
+    · intro _; exact ⟨rfl, rfl, rfl, rfl, fun _ => rfl⟩
+    · split <;> (intro h; cases h)
+  | add w name =>
+    rw [step_add]
+    split
+    · intro _; exact ⟨rfl, rfl, rfl, rfl, fun _ => rfl⟩
+    · intro h; cases h
+  | rename w name newname =>
+    rw [step_rename]
+    split
+    · intro _; exact ⟨rfl, rfl, rfl, rfl, fun _ => rfl⟩
+    · split
+      · intro _; exact ⟨rfl, rfl, rfl, rfl, fun _ => rfl⟩
+      · intro h; cases h
+    · intro _; exact ⟨rfl, rfl, rfl, rfl, fun _ => rfl⟩
+  | clear w pattern => rw [step_clear]; intro h; cases h
+  | update names deep =>
+    rw [step_update]
+    simp only
+    split
+    · intro _
+      exact ⟨rfl, readKeys_keys _ _ _ _, readKeys_parents _ _ _ _, readKeys_indices _ _ _ _,
+        fun hne => absurd rfl (hne names deep)⟩
+    · intro h; cases h
+  | copy names deep => rw [step_copy]; intro h; cases h
+  | getm w names store => rw [step_getm]; intro h; cases h
+  | getInd w ind store =>
+    rw [step_getInd]
+    split
+    · intro _; exact ⟨rfl, rfl, rfl, rfl, fun _ => rfl⟩
+    · intro h; cases h
 
 /-- Retrieval with caching disabled leaves no data behind: the registers are unchanged. -/
 theorem getm_store_false' (s : State) (w : Which) (names : Option (List Str)) :
     (step s (.getm w names false)).1.a = s.a ∧ (step s (.getm w names false)).1.b = s.b := by
-  sorry
+  rw [step_getm]
+  simp only [readKeys_false]
+  cases w <;> exact ⟨rfl, rfl⟩
 
+theorem getm_twice (s : State) (w : Which) (names : Option (List Str)) :
+    step (step s (.getm w names true)).1 (.getm w names true) =
+      ((step s (.getm w names true)).1, (step s (.getm w names true)).2) := by
+  have h1 : step s (.getm w names true) =
+      ({ setDb s w (readKeys (getDb s w) s.next (select (getDb s w) names) true).1 with
+          next := (readKeys (getDb s w) s.next (select (getDb s w) names) true).2.1 },
+        .series (readKeys (getDb s w) s.next (select (getDb s w) names) true).2.2) := step_getm s w names true
+  rw [h1]
+  generalize hr : readKeys (getDb s w) s.next (select (getDb s w) names) true = r
+  have hsel : select r.1 names = r.2.2.map (·.1) := by
+    rw [← hr, readKeys_out_keys]
+    exact select_congr (readKeys_keys _ _ _ _) names
+  have hcached : ∀ kv ∈ r.2.2, lookup r.1.register kv.1 = some (some kv.2) := by
+    rw [← hr]; exact readKeys_cached _ _ _
+  rw [step_getm]
+  simp only
+  have hg : getDb ({ setDb s w r.1 with next := r.2.1 } : State) w = r.1 := by cases w <;> rfl
+  rw [hg, hsel, readKeys_all_cached true r.2.2 r.1 r.2.1 hcached]
+  cases w <;> rfl
+
+set_option linter.unusedVariables false in
 /-- With caching enabled a later retrieval returns the very same objects and constructs nothing new. -/
 theorem getm_store_true_same' (s : State) (w : Which) (names : Option (List Str)) (hc : Coherent (getDb s w)) :
     let s1 := (step s (.getm w names true)).1
     (step s1 (.getm w names true)).2 = (step s (.getm w names true)).2 ∧ (step s1 (.getm w names true)).1 = s1 := by
-  sorry
+  intro s1
+  have := getm_twice s w names
+  exact ⟨congrArg Prod.snd this, congrArg Prod.fst this⟩
 
 /-- Retrieval returns exactly the selected keys, in order, and never changes which keys are registered. -/
 theorem getm_keys' (s : State) (w : Which) (names : Option (List Str)) (store : Bool) :
     (∃ l, (step s (.getm w names store)).2 = .series l ∧ l.map (·.1) = select (getDb s w) names) ∧
       (getDb (step s (.getm w names store)).1 w).keys = (getDb s w).keys := by
-  sorry
+  rw [step_getm]
+  refine ⟨⟨_, rfl, readKeys_out_keys _ _ _ _⟩, ?_⟩
+  have : ∀ (d : Db) (n : Nat), getDb ({ setDb s w d with next := n } : State) w = d := by
+    intro d n; cases w <;> rfl
+  simp only [this, readKeys_keys]
 
 /-- A deep copy has the same keys, parents and indices as the selection and shares no series object with the source;
 a shallow copy shares exactly the series objects. -/
@@ -70,6 +161,40 @@ theorem copy_spec' (s : State) (names : Option (List Str)) (deep : Bool) (ha : C
     (deep = false → ∀ k ∈ s'.b.keys, lookup s'.b.register k = lookup s'.a.register k) ∧
     (deep = true → ∀ k ∈ s'.b.keys, ∀ k' ∈ s'.a.keys, ∀ o, lookup s'.b.register k = some (some o) →
       lookup s'.a.register k' ≠ some (some o)) := by
-  sorry
+  rw [step_copy]
+  have hkeys0 := readKeys_out_keys true (select s.a names) s.a s.next
+  have hcached := readKeys_cached (select s.a names) s.a s.next
+  have hfr := readKeys_fresh true (select s.a names) s.a s.next hfresh
+  have hpar := readKeys_parents true (select s.a names) s.a s.next
+  have hind := readKeys_indices true (select s.a names) s.a s.next
+  generalize readKeys s.a s.next (select s.a names) true = r at *
+  have hnd : (r.2.2.map (·.1)).Nodup := by rw [hkeys0]; exact select_nodup _ _ ha.1
+  have hkeys : (r.2.2.foldl (cpStep deep r.1) (({} : Db), r.2.1)).1.keys = select s.a names := by
+    rw [(coh_cp_fold deep r.1 r.2.2 {} r.2.1 coh_empty hnd (fun _ _ => List.not_mem_nil)).2, hkeys0]
+    rfl
+  simp only
+  refine ⟨hkeys, ?_, ?_, ?_⟩
+  · intro k hk
+    rw [hkeys, ← hkeys0] at hk
+    have hka : k ∈ s.a.keys := select_subset s.a names k (hkeys0 ▸ hk)
+    have hs := (coherent_size' s.a ha).2 k hka
+    rw [cp_fold_parents, cp_fold_indices, if_pos hk, if_pos hk, hpar, hind]
+    constructor
+    · cases hl : lookup s.a.parents k with
+      | none => rw [hl] at hs; simp at hs
+      | some v => rfl
+    · cases hl : lookup s.a.indices k with
+      | none => rw [hl] at hs; simp at hs
+      | some v => rfl
+  · intro hd k hk
+    subst hd
+    rw [hkeys, ← hkeys0] at hk
+    rw [cp_fold_register_shallow r.1 r.2.2 hcached, if_pos hk]
+  · intro hd k _ k' _ o hb hl
+    subst hd
+    have h1 := cp_fold_register_deep r.1 r.2.2 r.2.1 {} r.2.1 (le_refl _) (fun _ h => absurd h List.not_mem_nil)
+      _ (mem_of_lookup hb) o rfl
+    have h2 := hfr _ (mem_of_lookup hl) o rfl
+    exact absurd h2 (Nat.not_lt.mpr h1)
 
 end Qats.Registry
